@@ -31,8 +31,9 @@ PARTIAL = ('C09_aligned / C09_same_code are proved for every source of the refer
            'short-if-do-body), none of the non-programs the parser accepts (`()`, `{,1}`, `for =1,2 do end`, `if then`, `if f(x) y=1`). '
            'The first two exclusions are needed: C09_aligned_paren_prefix_refuted, C09_aligned_if_do_refuted. C09_same_code is about the '
            'lexer MODEL run on the written text of the writer MODEL (both tied to the code by correspondence; the reference dialect of '
-           'Spec/LuaLex.v bounds it: no lone CR, no `--[==[`). Not proved: the line-scope clause (lines_kept of holds_C09: evaluated by '
-           'the monitor on the real output), and completeness of the parser on valid programs (C08). See notes/C09.md')
+           'Spec/LuaLex.v bounds it: no lone CR, no `--[==[`); C09_luafmt_holds / C09_echo_holds give the whole instance predicate holds_C09 '
+           '(parsed to the end, same code view, line-scoped constructs keep their extent) for the model inside that domain. Not proved: '
+           'completeness of the parser on valid programs (C08), i.e. that every valid program is inside the domain. See notes/C09.md')
 CLAIM = dict(
     text=("Model/AstWriter.v mirrors LuaASTEchoWriter (every handler, _get_text/_get_name/_get_semis/_get_code_for_spaces "
           "with the token cursor and the indent counter, the end-of-input check of to_lines), parameterised by the spaces "
@@ -50,7 +51,11 @@ CLAIM = dict(
           "writer writes is again a byte string of the reference dialect, the lexer model reads it, and the tokens read have the same "
           "code view same_code as the input: the same significant tokens with class and code, in order, and between them the same "
           "comments with the same bytes outside white space; so no end-of-line comment swallows code, no two tokens are glued, the "
-          "token count is unchanged), C09_run_same_comments (every re.sub of _get_code_for_spaces is neutral for a byte-level "
+          "token count is unchanged), C09_luafmt_holds / C09_echo_holds (under the same hypotheses the observation satisfies the "
+          "whole instance predicate holds_C09 that the monitor evaluates on the real output; the line-scope clause in its strongest "
+          "form: nl_before - for every code token, is there a newline token between the previous code token and it - is the same "
+          "list for the input and the written text, so a one-line if stays on one line and what followed it on a later line stays "
+          "on a later line), C09_run_same_comments (every re.sub of _get_code_for_spaces is neutral for a byte-level "
           "white-space / comment automaton). Proof route: Proofs/ParserShape.v re-runs the weakest-precondition proof of the parser with the "
           "postcondition `span` (every leaf was the first significant token at the cursor, node ends are cursors) and `shaped` "
           "(per node class, which hidden keyword / symbol leaves, token leaves and sub-nodes occur in which order); "
